@@ -19,7 +19,7 @@ const (
 // valTerms: vocabulary of a fan-out validator graph.
 type valTerms struct {
 	fn, chain, L, cert, i, issuer, R, OC, CC, purpose string
-	pg                                               *PG
+	pg                                                *PG
 }
 
 // validatorMethod discovers the concrete ValidateContext method behind
@@ -76,8 +76,9 @@ func isStoreOf(target string, valKey func(string) bool) LP {
 }
 
 func checkC11(c *Check) {
-	c.Explain = "C11: the validator's ValidateContext (goroutine bodies spliced in at their go statements, per-method checkers opaque), decided on every path of one iteration: (1) the OCSP checker is called only for a certificate with responders; the CRL checker only after OCSP was asked or when there are no responders, and only for a certificate with distribution points; the NonRevokable literal only when it has neither; (2) inside the OCSP arm the CRL checker is called only if the OCSP result is non-nil, Unknown, and the certificate has distribution points, and the bare OCSP result is stored only if that condition is false — so Good/Revoked OCSP verdicts are final and no CRL call is reachable for them; (3) the fallback stores into the CRL result exactly RevocationMethod=OCSPFallbackCRL and ServerResults=append(ocsp results, crl results...) and never its Result; (4) the standalone OCSP entry point's packages do not import the CRL packages. Does not decide which URLs are contacted beyond call reachability."
+	c.Explain = "C11: (0) inside the OCSP checker a Good/Revoked/unknown-status answer of one responder ends the responder loop at once and is the certificate's OCSP result (the rules of O-C04.4, re-evaluated here as O-C11.5: otherwise a later responder's failure would turn Revoked into Unknown and open the CRL fallback); the validator's ValidateContext (goroutine bodies spliced in at their go statements, per-method checkers opaque), decided on every path of one iteration: (1) the OCSP checker is called only for a certificate with responders; the CRL checker only after OCSP was asked or when there are no responders, and only for a certificate with distribution points; the NonRevokable literal only when it has neither; (2) inside the OCSP arm the CRL checker is called only if the OCSP result is non-nil, Unknown, and the certificate has distribution points, and the bare OCSP result is stored only if that condition is false — so Good/Revoked OCSP verdicts are final and no CRL call is reachable for them; (3) the fallback stores into the CRL result exactly RevocationMethod=OCSPFallbackCRL and ServerResults=append(ocsp results, crl results...) and never its Result; (4) the standalone OCSP entry point's packages do not import the CRL packages. Does not decide which URLs are contacted beyond call reachability."
 	c.Assume = append(c.Assume, "per-source outcome classes are decided under C04/C05")
+	ocspDecisiveRules(c)
 	fn := validatorMethod(c)
 	if fn == "" {
 		return
@@ -103,7 +104,9 @@ func checkC11(c *Check) {
 	c.within(pg, "O-C11.1", "CRL only after OCSP or without responders", "the CRL checker is called only after the OCSP checker or for a certificate without responders", v.L, AnyOf(ocCall, noOCSP), ccCall)
 	c.within(pg, "O-C11.1", "CRL only with distribution points", "the CRL checker is called only for a certificate that names distribution points", v.L, hasCRL, ccCall)
 	slot := v.R + "[" + v.i + "]"
-	isNonRev := func(k string) bool { return strings.HasPrefix(k, "&{ncg/revocation/result.CertRevocationResult Result:2 ") }
+	isNonRev := func(k string) bool {
+		return strings.HasPrefix(k, "&{ncg/revocation/result.CertRevocationResult Result:2 ")
+	}
 	nonRevStore := isStoreOf(slot, isNonRev)
 	c.floor("NonRevokable slot stores", 1, len(edgeSources(pg, nonRevStore)))
 	c.within(pg, "O-C11.1", "NonRevokable only without responders", "the NonRevokable literal is stored only for a certificate without responders", v.L, noOCSP, nonRevStore)
@@ -211,4 +214,23 @@ func checkNoCRLImports(c *Check) {
 		}
 	}
 	c.add("O-C11.4", "standalone OCSP packages do not import CRL packages", "revocation/ocsp and revocation/internal/ocsp do not import the CRL packages, directly or transitively", len(bad) == 0, "", bad...)
+}
+
+// ocspDecisiveRules re-evaluates the responder-loop rules of C04 (O-C04.4)
+// under C11: they are what makes a Good or Revoked OCSP answer final.
+func ocspDecisiveRules(c *Check) {
+	sub := newCheck(c.Prop, c.P, c.Tier)
+	sub.depth = c.depth
+	checkC04(sub)
+	n := 0
+	for _, o := range sub.Obls {
+		if o.Rule == "O-C04.4" || (!o.OK && (o.Rule == "anchor" || o.Rule == "engine")) {
+			n++
+			ob := c.add("O-C11.5", strings.TrimPrefix(o.Key, o.Rule+"|"), o.Desc, o.OK, o.Where, o.Detail...)
+			ob.Undecided = o.Undecided
+		}
+	}
+	c.Searches += sub.Searches
+	c.States += sub.States
+	c.floor("OCSP responder-loop rules (shared with C04)", 4, n)
 }
